@@ -8,6 +8,9 @@ pub mod trap;
 pub mod c01;
 pub mod c02;
 pub mod c03;
+pub mod c09;
+pub mod c10;
+pub mod pattern_model;
 pub mod c13;
 pub mod childproc;
 
@@ -33,6 +36,8 @@ pub fn dispatch(prop: &str, tier: &str, seed: u64, only: Option<(String, u64)>) 
         "C01" => c01::run(&mut rep),
         "C02" => c02::run(&mut rep),
         "C03" => c03::run(&mut rep),
+        "C09" => c09::run(&mut rep),
+        "C10" => c10::run(&mut rep),
         "C13" => c13::run(&mut rep),
         _ => {
             eprintln!("unknown property {}", prop);
